@@ -946,6 +946,9 @@ class Engine:
                     return vint(dcard(dom))
             if n in ('max', 'min') and len(args) == 2:
                 args = [self.as_int(st, a, line) for a in args]
+            if n in ('max', 'min') and len(args) == 2 and all(a.ty.k in ('int', 'real') for a in args) and any(a.ty.k == 'real' for a in args):
+                x, y = to_real(args[0].t), to_real(args[1].t)
+                return vreal(z3.If((x >= y) if n == 'max' else (x <= y), x, y))
             if n in ('max', 'min') and len(args) == 2 and all(a.ty.k == 'int' for a in args):
                 a, b = args
                 return vint(z3.If((a.t >= b.t) if n == 'max' else (a.t <= b.t), a.t, b.t))
